@@ -204,14 +204,22 @@ SYS_POOL = [
     {"name": "c22r3", "args": [["write", "wtheta", None], ["read", "w1", "region"]]},
     {"name": "c22r4", "args": [["readwrite", "wtheta", None], ["read", "any_space_1", None]]},
     {"name": "c22r5", "args": [["inc", "w2", None], ["read", "any_space_1", "cross"]]},
+    # kernels whose updates are all GH_WRITE, reading a field without stencil (the
+    # `all_updates_are_writes` special case of `_halo_read_access` / `HaloReadAccess`)
+    {"name": "c22r6", "args": [["write", "wtheta", None], ["read", "w1", None]]},
+    {"name": "c22r7", "args": [["write", "w2", None], ["read", "w1", None]]},
+    {"name": "c22r8", "args": [["write", "w2", None], ["read", "any_space_1", None]]},
+    {"name": "c22r9", "args": [["write", "w2", None], ["read", "w3", None]]},
 ]
+WRITTEN_FIELD = {"wtheta": "fe", "w2": "fc"}
 
 
 def systematic_invokes():
     """writer of a target field followed by a reader of it: every writer kind x reader kind"""
     out = []
-    for target, writers, readers in (("fd", [0, 1, "setval_c"], [5, 7, 9, 10, 1, "inc_a_times_x", "setval_x"]),
-                                     ("fb", [2, 3, 4, "setval_c"], [6, 8, 9, 10, 2, 3, "inc_a_times_x", "setval_x"])):
+    for target, writers, readers in (
+            ("fd", [0, 1, "setval_c"], [5, 7, 9, 10, 13, 14, 1, "inc_a_times_x", "setval_x"]),
+            ("fb", [2, 3, 4, "setval_c"], [6, 8, 9, 10, 11, 12, 13, 2, 3, "inc_a_times_x", "setval_x"])):
         for w in writers:
             wc = ["builtin", w, [target]] if isinstance(w, str) else ["kern", w, [target], [None]]
             for r in readers:
@@ -221,10 +229,12 @@ def systematic_invokes():
                     rcs = [["builtin", r, ["fg" if target == "fd" else "fc", target]]]
                 elif r in (0, 1, 2, 3, 4):
                     rcs = [["kern", r, [target], [None]]]
-                elif len(SYS_POOL[r]["args"][1]) == 3 and SYS_POOL[r]["args"][1][2]:
-                    rcs = [["kern", r, ["fe" if r in (7, 8) else "fc", target], [None, e]] for e in (1, 2, "ext1")]
+                elif SYS_POOL[r]["args"][1][2]:
+                    wf = WRITTEN_FIELD[SYS_POOL[r]["args"][0][1]]
+                    rcs = [["kern", r, [wf, target], [None, e]] for e in (1, 2, "ext1")]
                 else:
-                    rcs = [["kern", r, ["fe" if r == 9 else "fc", target], [None, None]]]
+                    wf = WRITTEN_FIELD[SYS_POOL[r]["args"][0][1]]
+                    rcs = [["kern", r, [wf, target], [None, None]]]
                 for rc in rcs:
                     out.append([wc, rc])
     return out
@@ -246,6 +256,8 @@ def systematic_histories():
             rs = [["rcl", 1, d] for d in r]
             if len(w) <= 1 and len(r) <= 1 and w != [3] :
                 base.append(ws + rs)
+                if len(r) == 1 and not w:
+                    base.append([["coll", 1]] + rs)          # colour the reader loop first
             else:
                 ext.append(ws + rs)
             if len(w) > 1 and r:
@@ -354,13 +366,18 @@ def run(chk):
         # 2. systematic family: writer kind x reader kind x redundant-computation depths x annexed
         sys_inv = systematic_invokes()
         if not thorough:
-            sys_inv = rng.sample(sys_inv, 16)
+            # stratified: one invoke per reader kind and one per writer kind
+            groups = {}
+            for inv in sys_inv:
+                groups.setdefault(("r",) + tuple(map(str, inv[1][:2])), []).append(inv)
+                groups.setdefault(("w",) + tuple(map(str, inv[0][:2])) + (inv[0][2][0],), []).append(inv)
+            sys_inv = [rng.choice(groups[g]) for g in sorted(groups)]
         info = R.parse_file(wd.path, SYS_POOL, sys_inv, tag="sys")
         cases = []
         for idx, invk in enumerate(sys_inv):
             base, ext = systematic_histories()
             for ann in (0, 1):
-                for hist in base + (ext if thorough else rng.sample(ext, 20)):
+                for hist in base + (ext if thorough else rng.sample(ext, 12)):
                     res = run_history(rng, info, idx, ann, 0, fixed_steps=hist)
                     if "crash" in res:
                         dist["crashed"] += 1
